@@ -74,7 +74,8 @@ Fixpoint pow2_ge (fuel : nat) (z k : N) : N :=
   | O => z
   | S f => if z <? k then pow2_ge f (2 * z) k else z
   end.
-Definition encompassing_power_of_two (k : N) : N := pow2_ge 64 1 k.
+(* size_t z = 1; while (z < k) z <<= 1;   (fuel: the number of bits of k always suffices) *)
+Definition encompassing_power_of_two (k : N) : N := pow2_ge (S (N.to_nat (N.size k))) 1 k.
 
 Inductive fres := FFound (i : N) | FNull | FCont.
 Inductive bres := BMatch (i : N) | BDone (f : option N).
